@@ -248,5 +248,10 @@ def check(ctx):
     c10.rules_override_scope(ctx, prefix="R5")
     # the chain reacts to Ended events: animate sends exactly one event per state change, none while the state rests (C18)
     c18.rules(ctx, c18.build(ctx, F), tag="/animate")
+    # the blend requested by select_animation reaches every component of a merged timeline and every animated property of
+    # a generated one (C12/R2, C17/G6)
+    from rules import c12, derive_rules
+    c12.check_loop_method(ctx, F, "R5", "start_with", mutable=True)
+    derive_rules.rule_blend_wiring(ctx, "R5")
     ctx.notes.append("not decided: change-detection and cross-frame ordering semantics of bevy's scheduler")
     ctx.assumptions += ["bevy Query::get_mut(entity) yields the entity's own components", "dyn_clone::clone_box is a faithful clone"]
